@@ -505,6 +505,15 @@ func (ep *l2Ep) endBlock(dt int64) string {
 					}
 				}
 			}
+			seenPos := false
+			for _, b := range p.own {
+				if b.Bond.Amount.IsPositive() {
+					seenPos = true
+				} else if seenPos {
+					ep.r.Count("refund:zero-record-after-a-positive-one")
+					break
+				}
+			}
 			failing = append(failing, p)
 		} else {
 			launching[d.Name] = true
@@ -868,6 +877,9 @@ func c20BondEpisode(r *Rec, n int) {
 	ep := newL2Ep(r, 4, names, denoms, minB, maxB, dur, 3)
 	r.Mark(fmt.Sprintf("bond episode %d min=%d max=%d", n, minB, maxB))
 	steps := 40 + r.Rng.Intn(40)
+	// every fourth bond episode lets users reclaim their whole bond: the zero record left behind blocks the refund of a
+	// failed bootstrap (recorded finding) — what must still hold is that a blocked refund changes NOTHING
+	zeroRecs := n%4 == 3
 	for s := 0; s < steps; s++ {
 		i := r.Rng.Intn(2)
 		name := names[i]
@@ -936,8 +948,11 @@ func c20BondEpisode(r *Rec, n int) {
 					amt = 1 + r.Rng.Int63n(1000)
 				}
 			}
-			if b.DappName != "" && amt == b.Bond.Amount.Int64() {
+			if b.DappName != "" && amt == b.Bond.Amount.Int64() && !zeroRecs {
 				amt--
+			}
+			if zeroRecs && b.DappName != "" && b.Bond.Amount.IsPositive() && r.Rng.Intn(4) == 0 {
+				amt = b.Bond.Amount.Int64() // the WHOLE recorded bond: a zero record stays behind (recorded finding at expiry)
 			}
 			den := "ukex"
 			if r.Rng.Intn(15) == 0 {
